@@ -333,12 +333,12 @@ theorem givePart_batcher_iff (hk : (w.dev x).kind = .batcher) (p : Nat) :
     (w.givePart x p).2 = true ↔
       w.operational x = true ∧ (w.dev x).blockInput = false ∧ (w.dev x).part = none ∧
         (w.dev x).output = none :=
-  give_batcher_iff hk (w.devs.length + 2) p
+  give_batcher_iff hk (2 * w.devs.length + 2) p
 
 /-- A refused part leaves the world unchanged. -/
 theorem givePart_batcher_refused (hk : (w.dev x).kind = .batcher) (p : Nat)
     (h : (w.givePart x p).2 = false) : (w.givePart x p).1 = w := by
-  have e : w.givePart x p = give (w.devs.length + 2 + 1) w x p := rfl
+  have e : w.givePart x p = give (2 * w.devs.length + 2 + 1) w x p := rfl
   rw [e, give_batcher hk] at h ⊢
   split at h <;> simp_all
 
